@@ -27,6 +27,34 @@ def getSteps (j : Json) (k : String) : R (List Step) := do
     | .ok s => Step.append <$> bytesOfHex s
     | .error _ => .error s!"field {k}: step is neither a hex string nor null"
 
+/-- cut a stream: bit `k` of `cuts` set (and octet `k+1` exists) = a chunk ends behind octet `k` -/
+def cutChunks : Bytes → Nat → Bytes → List Bytes
+  | [], _, acc => [acc.reverse]
+  | x :: xs, m, acc =>
+    if !xs.isEmpty && m % 2 == 1 then (x :: acc).reverse :: cutChunks xs (m / 2) []
+    else cutChunks xs (m / 2) (x :: acc)
+
+/-- append every chunk; call the parser behind chunk `i` when bit `i` of `parses` is set, and
+    always behind the last chunk -/
+def cutSchedule : List Bytes → Nat → List Step
+  | [], _ => []
+  | [c], _ => [.append c, .parse]
+  | c :: cs, m => (if m % 2 == 1 then [.append c, .parse] else [.append c]) ++ cutSchedule cs (m / 2)
+
+def obsJ (ids : List Nat) (obs : List (List Bytes × List Bytes)) (qf : List Bytes) : Json :=
+  obj [("packets", jarr (obs.map fun o => jarr (o.1.map jh))),
+       ("rest", jarr (obs.map fun o => jh o.2.flatten)),
+       ("rest_canon", jarr (obs.map fun o => jh (canonRest ids o.2.flatten))),
+       ("queue", jarr (obs.map fun o => jarr (o.2.map jh))),
+       ("final", jh qf.flatten)]
+
+def runOn (pids : Py (List PacketId)) (steps : List Step) :
+    Py (List Nat × (List (List Bytes × List Bytes) × List Bytes)) := do
+  let ps ← pids
+  let ids := ps.map PacketId.raw
+  let o ← runPy ids [] steps
+  pure (ids, o)
+
 def ops : List (String × Handler) := [
   -- a whole history on a new deque: per parser call the packets returned, the concatenation of the
   -- deque's chunks afterwards (`rest`), its canonical form (`rest_canon`) and the chunks themselves
@@ -34,17 +62,16 @@ def ops : List (String × Handler) := [
   ("sp_parse_run", fun j => do
       let pids ← getPids j "ids"
       let steps ← getSteps j "steps"
-      let r : Py (List Nat × (List (List Bytes × List Bytes) × List Bytes)) := do
-        let ps ← pids
-        let ids := ps.map PacketId.raw
-        let o ← runPy ids [] steps
-        pure (ids, o)
-      pure (res (fun (ids, obs, qf) =>
-        obj [("packets", jarr (obs.map fun o => jarr (o.1.map jh))),
-             ("rest", jarr (obs.map fun o => jh o.2.flatten)),
-             ("rest_canon", jarr (obs.map fun o => jh (canonRest ids o.2.flatten))),
-             ("queue", jarr (obs.map fun o => jarr (o.2.map jh))),
-             ("final", jh qf.flatten)]) r)),
+      pure (res (fun (ids, obs, qf) => obsJ ids obs qf) (runOn pids steps))),
+  -- the same for a stream cut at the positions given by the bit mask `cuts`, parser calls behind the
+  -- chunks given by the bit mask `parses` and behind the last chunk
+  ("sp_parse_cuts", fun j => do
+      let pids ← getPids j "ids"
+      let stream ← getHex j "stream"
+      let cuts ← getNat j "cuts"
+      let parses ← getNat j "parses"
+      let steps := cutSchedule (cutChunks stream cuts []) parses
+      pure (res (fun (ids, obs, qf) => obsJ ids obs qf) (runOn pids steps))),
   -- one buffer, one call
   ("sp_parse_buf", fun j => do
       let pids ← getPids j "ids"
